@@ -53,6 +53,10 @@ struct LinePrinter {
   /// Whether the caret is at the beginning of a blank line.
   bool have_blank_line_;
 
+  /// Whether the last thing written to the terminal was command output that
+  /// did not end in a newline (a status line must not overprint it).
+  bool partial_output_line_ = false;
+
   /// Whether console is locked.
   bool console_locked_;
 
